@@ -290,7 +290,10 @@ def cleanup():
 def coq_run_file(path, timeout=600):
     cmd = ["coqc"] + COQ_FLAGS + ["-o", str(path) + "o", str(path)]
     try:
-        rc, out = sh(["bash", "-c", "ulimit -s unlimited 2>/dev/null; exec \"$@\"", "x"] + cmd, timeout)
+        # address-space cap: a case file that blows up (seen once under a seeded bug: 57 GB) must fail, not take
+        # the machine down; ordinary shards need well under 2 GB
+        rc, out = sh(["bash", "-c", "ulimit -s unlimited 2>/dev/null; ulimit -v 16000000 2>/dev/null; exec \"$@\"", "x"]
+                     + cmd, timeout)
     except subprocess.TimeoutExpired:
         return 124, "timeout after %ds" % timeout
     return rc, out
